@@ -1027,13 +1027,14 @@ pub fn all() -> Vec<Scn> {
     }));
 
     v.extend(crate::recv::all());
+    v.extend(crate::recv::accept_peers());
     #[cfg(not(feature = "noalloc"))]
     v.extend(crate::variants::all());
     #[cfg(feature = "noalloc")]
     {
         // the stack-buffer branch of create_dir_all: a path longer than 512 bytes is refused without an allocator
         v.push(scn("fs::create_dir_all[path>512]", |e| mk(fs::create_dir_all(&e.u(&"abcdefghi/".repeat(60))), nofd)).prep(|e| e.rm("abcdefghi")));
-        v.retain(|s| s.name.starts_with("process::spawn") || s.name.starts_with("fs::create_dir_all") || s.name.starts_with("recvmsg"));
+        v.retain(|s| s.name.starts_with("process::spawn") || s.name.starts_with("fs::create_dir_all") || s.name.starts_with("recvmsg") || s.name.contains("[peer="));
     }
     v
 }
